@@ -116,6 +116,13 @@ static void c18_random(uint64_t ncases) {
     uint64_t g_vc = nop::SipHash::Compute(std::vector<char>(reinterpret_cast<const char*>(h), reinterpret_cast<const char*>(h) + len), k0, k1);
     uint64_t g_vs = nop::SipHash::Compute(std::vector<signed char>(reinterpret_cast<const signed char*>(h), reinterpret_cast<const signed char*>(h) + len), k0, k1);
     uint64_t g_vu = nop::SipHash::Compute(std::vector<uint8_t>(h, h + len), k0, k1);
+    // a reader object that is re-seated by assignment (and one that is copy-constructed) hashes the bytes it now refers to, with their length
+    { static const uint8_t other[13] = {1, 2, 3, 4, 5, 6, 7, 8, 9, 10, 11, 12, 13};
+      nop::BlockReader<uint8_t> rd(other, (len % 2) ? sizeof other : 3); rd = nop::BlockReader<uint8_t>(h, len); nop::BlockReader<uint8_t> cp(rd);
+      uint64_t a = nop::SipHash::Compute(rd, k0, k1), b = nop::SipHash::Compute(cp, k0, k1);
+      rep().count("c18_reseated_reader_cases");
+      if (a != ref || b != ref) rep().violation("oracle-siphash:reseated-block-reader", fmt("a BlockReader assigned from another reader (len %zu, previously %zu bytes) hashes to %016" PRIx64 ", its copy to %016" PRIx64 "; SipHash-2-4 of the bytes it refers to is %016" PRIx64, len, (len % 2) ? sizeof other : (size_t)3, a, b, ref),
+                                         case_desc(T, (int64_t)c, "runtime", J().u("len", len).u("k0", k0).u("k1", k1).s("bytes", hex(h, len, 64)).str())); }
     rep().note(hash_combine(hash_bytes(h, len), hash_combine(k0, k1)), len > 0);
     rep().count("c18_runtime_cases"); rep().count(fmt("c18_len_mod8_%zu", len % 8)); if (len > 255) rep().count("c18_len_gt_255"); if (len > 1024) rep().count("c18_len_gt_1024");
     if (high) rep().count("c18_cases_with_high_bit_bytes");
